@@ -1,6 +1,7 @@
 """C12 — end-to-end acceptance part: the Thrift and ThriftMux clients built by the public builders over a
 fake network with scripted servers; Lean monitors (Adapter/E2E.lean) judge the event log."""
 import e2e
+import lbrun
 from props import c08, c11
 
 PROPERTY = 'C12'
@@ -16,12 +17,17 @@ MUX_FOCUS = 'timeouts'      # the multiplexed hop on its own: scripts for compon
 
 
 def gen_script(rng, tier):
-    """half of the scripts drive the assembled stacks (component e2e12), half the real mux transport sink on a
-    fake socket (component `tagpool`, judged by the Lean spec12: C11 + own-reply + C12 clauses)"""
+    """four kinds of script, one per hop: the assembled stacks (component e2e12), the real mux transport sink on a
+    fake socket (component `tagpool`, judged by the Lean spec12: C11 + own-reply + C12 clauses), the serial transport
+    (component `serial12`) and the balancers' gate in front of the open result (component `lbgate`)"""
     r = rng.random()
-    if r < 0.4:
+    if r < 0.15:
+        # the balancer hop: requests waiting for the open result, some with their deadline passed
+        # (component `lbgate`: the real Heap/ApertureBalancerSink vs Model/LBBase.lean, spec LB.specGate)
+        return lbrun.gen_script(rng, tier, 12)
+    if r < 0.5:
         return e2e.gen_script(rng, tier)
-    if r < 0.65:
+    if r < 0.7:
         # the serial transport on the step-controlled socket (component `serial12`: no frame of a
         # request after its TimeoutError; an expired request is never written)
         return c08._gen_serial(rng, rng.choice([8, 14, 22]))
@@ -40,12 +46,16 @@ def exhaustive(tier, shard, shards):
 
 
 def shrink(script):
+    if script.get('t') == 'lbgate':
+        return lbrun.shrink(script)
     if script.get('t') == 'serial':
         return c08.shrink(script)
     return c11.shrink(script) if 'ops' in script else e2e.shrink(script)
 
 
 def run_script(script):
+    if script.get('t') == 'lbgate':
+        return lbrun.run_script(script, 'lbgate')
     if script.get('t') == 'serial':
         case = c08.run_script(script)
         case['comp'] = 'serial12'
@@ -57,5 +67,6 @@ def run_script(script):
 
 def nontrivial(case):
     t = set(case.get('tags', []))
-    return bool(t & {'timed-out', 'released', 'reordered', 'conn-killed', 'unreachable', 'pre-open', 'discard-sent'}) \
+    return bool(t & {'timed-out', 'released', 'reordered', 'conn-killed', 'unreachable', 'pre-open', 'discard-sent',
+                     'gate-dropped', 'gate-expired', 'queued-req'}) \
         or c11.nontrivial(case) or c08.nontrivial(case)
